@@ -89,7 +89,7 @@ func zzH_C05() {
 		if mutate {
 			docName = "doc1" // the same document object every time, updated in place between calls
 		}
-		doc := zzDoc(docName)
+		doc := zzInputDoc(docName)
 		if mutate && i > 0 {
 			zzMutateInPlace(doc)
 		}
@@ -120,8 +120,11 @@ func zzH_C05() {
 		if err != nil && ferr != nil {
 			zzAssert(zzErrKind(err) == zzErrKind(ferr) && err.Error() == ferr.Error(), "same-error-as-fresh-retrieve")
 		}
-		zzOut("got"+string(rune('1'+i)), got)
-		zzOut("err"+string(rune('1'+i)), err)
+		if !mutate {
+			// (outputs are rendered at the end of the path: not meaningful for documents updated in place)
+			zzOut("got"+string(rune('1'+i)), got)
+			zzOut("err"+string(rune('1'+i)), err)
+		}
 		results = append(results, got)
 		cp := make([]interface{}, len(got))
 		copy(cp, got)
@@ -200,7 +203,7 @@ func zzH_C06_eval() {
 	if f == nil {
 		return
 	}
-	doc := zzDoc("doc")
+	doc := zzInputDoc("doc")
 	// warm the pools so that reuse of pooled buffers is exercised
 	Retrieve(`$..*`, map[string]interface{}{"k": []interface{}{1.0}, "j": 3.0})
 	zzAccessStart()
